@@ -127,7 +127,9 @@ let job_tcheck (job : Sx.t) : string =
        (match Infer.check_program intern (nat_of_int 400) p, real with
         | Infer.COk m, Some r ->
           let pm = parts m and pr = parts r in
-          if pm = pr then "(same)" ^ fr
+          let sf = if InferSound.in_sound_fragment p && InferSafe.structs_sorted p && InferSafe.sp_program p
+                      && InferSafe.main_declared p && InferSafe.tys_program m then " (safe-fragment 1)" else " (safe-fragment 0)" in
+          if pm = pr then "(same)" ^ fr ^ sf
           else begin
             (* first differing part *)
             let rec first a b = match a, b with
